@@ -165,7 +165,9 @@ def foreign_body(case):
     if fmt == "JSON":
         text = json.dumps(data, indent=None if case["flow"] else 2, sort_keys=case["reverse"])
     else:
-        text = yaml.safe_dump(data, default_flow_style=case["flow"], allow_unicode=case["reverse"],
+        # raw NEL / LS / PS are line breaks to a YAML parser: a careful foreign tool escapes them
+        raw_ok = not any(c in json.dumps(data, default=str, ensure_ascii=False) for c in u"\x85\u2028\u2029\ufeff")
+        text = yaml.safe_dump(data, default_flow_style=case["flow"], allow_unicode=case["reverse"] and raw_ok,
                               sort_keys=not case["reverse"])
     doc = build.build_doc(spec)
     expected = snap.content(doc)
